@@ -28,7 +28,7 @@ func init() {
 			"arrival time stamp of a message = accumulated Driver.Sleep time of the Send call that carried its last byte (C04)",
 			"inter-arrival gaps are kept below 0x07FFFFFF ticks at the recording tempo and resolution (a delta must be representable in the file)",
 		},
-		Require: []string{"old_driver_recordings", "recordings_with_empty_deliveries", "overdubs_into_read_files", "recordings", "channel_messages_recorded", "non_channel_messages_sent", "realtime_sent", "syscommon_sent", "strict_validated", "read_back", "delta_checks", "file_level_recordings", "recordings_with_long_pause", "recordings_with_oversized_sysex", "long_sessions_beyond_2^32_ticks"},
+		Require: []string{"old_driver_recordings", "recordings_with_empty_deliveries", "overdubs_into_read_files", "recordings", "channel_messages_recorded", "non_channel_messages_sent", "realtime_sent", "syscommon_sent", "strict_validated", "read_back", "delta_checks", "file_level_recordings", "recordings_with_long_pause", "recordings_with_oversized_sysex", "long_sessions_beyond_2^32_ticks", "recordings_with_silence_beyond_the_delta_range"},
 		Run:     runC13,
 	})
 }
@@ -339,7 +339,8 @@ func runC13(c *mon.Ctx) {
 					continue
 				}
 				if k == 0 {
-					lo := c13ExpectedTicks(c13BaseMs+want[0].at-60000, res, bpm) - 1
+					// (the test driver's clock starts with Listen: no session offset any more since /repo d50306c)
+					lo := c13ExpectedTicks(c13BaseMs+want[0].at, res, bpm) - 1
 					hi := c13ExpectedTicks(c13BaseMs+want[0].at, res, bpm) + 1
 					if e.abs < lo || e.abs > hi {
 						c.Violation("first-delta", fmt.Sprintf("first channel message at tick %d, expected about %d (arrival at %d ms)", e.abs, hi-1, c13BaseMs+want[0].at), in, hi-1, e.abs)
@@ -462,6 +463,56 @@ func runC13(c *mon.Ctx) {
 			}
 		}
 		c.DistinctBytes([]byte(fmt.Sprint("long", i, res, bpm, gaps)))
+	})
+
+	// a silence whose conversion does not fit the delta of an SMF event (KNOWN FINDINGS, see known_findings.json):
+	// more than 0x0FFFFFFF ticks (43 min 41.44 s at resolution 15360 and 400 BPM) is written as a five-byte delta,
+	// 2^32 ticks and more (12 h at that setting) wrap around
+	c.Each("silence-beyond-the-delta-range", 2, func(i int64, _ *mon.Rand) {
+		res, bpm := uint16(15360), 400.0
+		gapMs := int64(2_621_440)
+		if i == 1 {
+			gapMs = 12 * 3600 * 1000
+		}
+		l := newL2()
+		var tr smf.Track
+		var stop func()
+		var err error
+		in := map[string]any{"resolution": res, "bpm": bpm, "scenario": fmt.Sprintf("note on, %d ms of silence on the driver's clock, note off", gapMs)}
+		if c.Guard("panic:RecordFrom", in, func() { stop, err = tr.RecordFrom(l.in, smf.MetricTicks(res), bpm) }) || err != nil {
+			return
+		}
+		l.drv.Sleep(10 * time.Millisecond)
+		l.out.Send([]byte{0x90, 60, 100})
+		l.drv.Sleep(time.Duration(gapMs) * time.Millisecond)
+		l.out.Send([]byte{0x80, 60, 0})
+		stop()
+		c.Count("recordings", 1)
+		c.Count("recordings_with_silence_beyond_the_delta_range", 1)
+		c.Eval(1)
+		if len(tr) != 3 {
+			c.Violation("content", fmt.Sprintf("2 channel messages sent, %d events recorded after the tempo event", len(tr)-1), in, 2, len(tr)-1)
+			return
+		}
+		x := c13ExpectedTicks(gapMs, res, bpm)
+		if d := int64(tr[2].Delta) - x; d > 1 || d < -1 {
+			c.ViolationSig("delta", "delta:silence-of-2^32-ticks-or-more-wraps", fmt.Sprintf("the note off arrived %d ms after the note on = %d ticks at %v BPM and resolution %d; recorded delta %d (the conversion wraps around at 2^32 ticks)", gapMs, x, bpm, res, tr[2].Delta), in, x, tr[2].Delta)
+			return
+		}
+		full := append(smf.Track(nil), tr...)
+		full.Close(0)
+		f := smf.New()
+		f.TimeFormat = smf.MetricTicks(res)
+		f.Add(full)
+		var buf bytes.Buffer
+		if _, err := f.WriteTo(&buf); err != nil {
+			c.Violation("write-error", err.Error(), in, nil, nil)
+			return
+		}
+		if _, err := ref.Decode(buf.Bytes(), ref.DecodeOpts{Strict: true}); err != nil {
+			in["written_file"] = mon.Hex(buf.Bytes())
+			c.ViolationSig("recorded-file-invalid", "recorded-file-invalid:silence-above-0x0FFFFFFF-ticks", fmt.Sprintf("a silence of %d ms (= %d ticks, more than the 0x0FFFFFFF an SMF delta can hold) is recorded as delta %d: the recorded track, closed and written, is not a valid SMF: %v", gapMs, x, tr[2].Delta, err), in, "valid SMF", err.Error())
+		}
 	})
 
 	// SMF.RecordFrom / smf.RecordTo: their stop functions sleep one second each
